@@ -69,8 +69,7 @@ Tie: see above; quick = 200 models + 67 mutated (20 kinds of unsupported constru
 Modelled, not verified: protobuf presence/oneof/CopyFrom, dict order, sorted() on str, UTF-8 validity (a flag
   computed by the converter), int()/str() on digit strings, ExternalDataInfo's key whitelist.  Not modelled
   (model answers Raise OtherError = "outside the model", such inputs are not generated as supported): duplicated graph
-  or function input names, the IR < 10 experimental function value-info names "domain::function/value" in the main
-  graph, external offset/length that are not plain digit strings.  Abstraction: node outputs are keys of the scope
+  or function input names, external offset/length that are not plain digit strings.  Abstraction: node outputs are keys of the scope
   table (a key always equals the name of its value; proved as invariant scope_ok for inputs).
 
 Findings on the tree as first read (all reproduced on the real code; witnesses in known_witnesses()):
@@ -80,6 +79,11 @@ Findings on the tree as first read (all reproduced on the real code; witnesses i
   fixed 66aa20a  tensorproto-metadata-duplicated      (orchestrator, before this module existed)
   known          external-data-checksum-dropped       (no small repair: ExternalTensor has no slot for extra keys)
   The model describes the fixed code; the witnesses are ordinary supported corpus cases now.
+  The IR < 10 experimental function value-info lookup (names "domain::function/value" in the main graph) is now
+  modelled (parse_exp / apply_exp_fn, gated on the regenerated FUNCTION_VALUE_INFO_SUPPORTED_VERSION) instead of
+  "outside the model"; the generator writes such names at IR >= 10 (supported: ordinary unreferenced entries) and,
+  in the unsupported stream, at every IR version (seeded r2m3: gate changed to `if model.functions` — first missed,
+  now caught).
   Upstream fixes 5e4600e (nodes of nested graphs follow the model's IR-version gate: ser_graph passes irv down,
   wf_graph's allow_dev now covers nested graphs) and 3a09e57 (a repeated initializer name: only the last tensor is
   used — `last_only`, after all tensors are deserialized) landed after the proof was finished: model, wf, generator
@@ -1006,6 +1010,22 @@ class Gen:
         if self.chance(0.5):
             for i in range(self.r.randrange(1, 4)):
                 self.function(m.functions.add(), irv, i, confs)
+        if irv >= 10 and len(m.functions) and self.chance(0.5):
+            # from IR 10 on a main-graph value_info named "{domain}::{function}/{value}" is an ordinary
+            # (here: unreferenced) entry and must not touch the function's values
+            taken = {v.name for v in m.graph.value_info}
+            for f in m.functions:
+                vals = list(f.input) + [o for n in f.node for o in n.output if o]
+                if not vals or not self.chance(0.7):
+                    continue
+                nm = f"{f.domain}::{f.name}/{self.r.choice(vals)}"
+                if nm in taken:
+                    continue
+                taken.add(nm)
+                self.vinfo(m.graph.value_info.add(), nm, typed=1.0)
+                self.h("model:experimental-name-at-ir10+")
+            if self.chance(0.3) and "nofn::x/y" not in taken:
+                self.vinfo(m.graph.value_info.add(), "nofn::x/y")
         return m
 
 
@@ -1013,7 +1033,7 @@ MUTATIONS = ["dup-metadata-key", "vinfo-names-input", "unresolved-input", "check
              "quant-passthrough", "seq-no-elem", "map-type", "tensor-no-elem", "sparse-attr", "undefined-attr",
              "devconf-old-ir", "function-vinfo-old-ir", "dup-opset", "output-not-produced", "dup-attr",
              "strings-not-utf8", "type-denotation-only", "empty-sharding-tensor", "dup-value-info",
-             "devconf-old-ir-subgraph", "dup-initializer"]
+             "devconf-old-ir-subgraph", "dup-initializer", "exp-vinfo-name", "exp-vinfo-name-value"]
 
 
 def mutate(rng, m, kind: str) -> bool:
@@ -1138,6 +1158,26 @@ def mutate(rng, m, kind: str) -> bool:
             t.data_type = dt
             t.dims.append(1)
             (t.float_data if dt == 1 else t.double_data).append(v)
+    elif kind in ("exp-vinfo-name", "exp-vinfo-name-value"):
+        # main-graph value_info named like the IR-9 experimental function value-info "{domain}::{function}/{value}"
+        f = m.functions.add(name="fexp", domain="pkg")
+        f.input.append("a")
+        f.output.append("b")
+        f.node.add(op_type="Identity", input=["a"], output=["b"])
+        if m.ir_version >= 10 and rng.random() < 0.5:
+            own = f.value_info.add()
+            own.name = "b"
+            own.type.tensor_type.elem_type = 1
+        for nm, et in (("pkg::fexp/b", 7), ("pkg::fexp/a", 0), ("pkg::nofn/b", 6), ("x/y/z", 1), ("pkg::fexp", 1)):
+            vi = g.value_info.add()
+            vi.name = nm
+            if et:
+                vi.type.tensor_type.elem_type = et
+                vi.type.tensor_type.shape.dim.add().dim_value = 2
+            vi.doc_string = "exp " + nm
+            vi.metadata_props.add(key="exp", value="1")
+        if kind == "exp-vinfo-name-value":
+            g.node.add(op_type="Identity", input=[], output=["pkg::fexp/b"])
     elif kind == "dup-value-info":
         outs = [o for n in g.node for o in n.output if o and o not in [v.name for v in g.output]]
         if not outs:
@@ -1490,6 +1530,17 @@ def gen_cases(ck, n_models: int) -> dict[str, list[dict]]:
             c = make_case("graph", gp, True)
             if c:
                 by_kind["graph"].append(c)
+    # the experimental function value-info names at both sides of the IR-version gate, in every run
+    for irv in (8, 9, 10, 12):
+        for mk in ("exp-vinfo-name", "exp-vinfo-name-value"):
+            m2 = g.model()
+            m2.ir_version = irv
+            if mutate(ck.rng, m2, mk):
+                c = make_case("model", m2, False)
+                if c:
+                    c["mutation"] = f"{mk}@ir{irv}"
+                    by_kind["model"].append(c)
+                    ck.hist("unsupported_stream", f"{mk}@ir{irv}")
     for i in range(n_models):
         t = onnx.TensorProto()
         g.tensor(t)
